@@ -139,6 +139,7 @@ type Exec struct {
 	assumeBlock []int         // origin block of each assumption
 	reach       map[int]map[int]bool // reach[a][b]: block a reaches block b in the top-frame CFG (reflexive)
 	specAppBlk  map[string]int
+	readInv     bool // wrap() is being applied to a value read from memory
 	trusted     map[string]bool // trusted (assumed) contracts used
 	cardFacts   map[string]bool
 	axiomRec    map[string]bool
@@ -306,8 +307,9 @@ func (e *Exec) wrap(st *State, t Term, label string) Val {
 		r := e.newRoot("s", 1, d.Elem, label)
 		r.ElemLabel = label
 		st.mem[r] = u.SArr(t)
-		if e.binder == 0 && !strings.HasPrefix(t.S, "(mk_") {
-			// type invariant of every slice value
+		if e.readInv && e.binder == 0 {
+			// type invariant of a slice value read from memory (never assumed for computed sub-slices:
+			// a computed length is only non-negative on the paths that actually slice)
 			e.assume(Cmp(">=", u.SLen(t), IntLit(0)))
 		}
 		return Val{K: vSlice, R: r, Off: IntLit(0), Len: u.SLen(t), S: t.Sort, T: t}
@@ -437,6 +439,8 @@ func (e *Exec) load(st *State, a Val, pos token.Pos) Val {
 	if a.K != vAddr {
 		panic("load from non-address")
 	}
+	e.readInv = e.pure == 0
+	defer func() { e.readInv = false }()
 	r := a.R
 	if r.Kind == 0 {
 		cv, ok := st.cell[r]
@@ -718,11 +722,13 @@ func (e *Exec) mergeVals(out *State, sts []*State, vs []Val, conds []Term, name 
 				t = Ite(conds[i], ti, t)
 			}
 		}
-		label := labelOf(vs[0])
+		deep := labelOf(vs[0])
+		own := vs[0].R.Label
 		for _, v := range vs[1:] {
-			label = joinLabel(label, labelOf(v))
+			deep = joinLabel(deep, labelOf(v))
+			own = joinLabel(own, v.R.Label)
 		}
-		return e.wrap(out, e.name("j_"+name, t), label)
+		return e.wrapOwn(out, e.name("j_"+name, t), deep, own)
 	case vAddr, vClo, vNone, vIter:
 		e.fail("merge of differing address/closure values for %s", name)
 		return vs[0]
